@@ -710,23 +710,30 @@ class SymEx:
         if isinstance(s, ast.Assign):
             out = []
             for x, v in self.ev(s.value, st):
+                cur = [x]
                 if x.exc is None:
                     for t in s.targets:
-                        xs = self.assign(t, v, x, s)
-                        # assignment targets never fork in this code base
-                        x = xs
-                        if isinstance(t, ast.Name):
-                            if isinstance(s.value, ast.Attribute) and v[0] == 'attr':
-                                x.env['@ast:' + t.id] = ('ast', id(s.value))     # price_of = self.handler.get_price : a bound method kept in a local
-                                self.closures[id(s.value)] = (None, s.value, None, self.fn)
-                            else:
-                                x.env.pop('@ast:' + t.id, None)
-                out.append((x, None))
+                        nxt = []
+                        for x1 in cur:
+                            if x1.exc is not None:
+                                nxt.append(x1)
+                                continue
+                            # a target forks only where a property setter that validates (or branches) runs
+                            for x2 in self.assign_multi(t, v, x1, s):
+                                if x2.exc is None and isinstance(t, ast.Name):
+                                    if isinstance(s.value, ast.Attribute) and v[0] == 'attr':
+                                        x2.env['@ast:' + t.id] = ('ast', id(s.value))     # price_of = self.handler.get_price : a bound method kept in a local
+                                        self.closures[id(s.value)] = (None, s.value, None, self.fn)
+                                    else:
+                                        x2.env.pop('@ast:' + t.id, None)
+                                nxt.append(x2)
+                        cur = nxt
+                out.extend((x1, None) for x1 in cur)
             return out
         if isinstance(s, ast.AnnAssign):
             if s.value is None:
                 return [(st, None)]
-            return [((self.assign(s.target, v, x, s) if x.exc is None else x), None) for x, v in self.ev(s.value, st)]
+            return [(y, None) for x, v in self.ev(s.value, st) for y in (self.assign_multi(s.target, v, x, s) if x.exc is None else [x])]
         if isinstance(s, ast.AugAssign):
             out = []
             load = ast.copy_location(_as_load(s.target), s.target)
@@ -739,7 +746,8 @@ class SymEx:
                             # `xs += <list>` extends in place the object xs is bound to: when that is somebody else's list (an attribute, the answer of
                             # a call) rather than a container built here, the owner sees the change
                             y = y.ev(Ev('write', loc=old, value=nv, how='mut:extend', site=self.site(s), fn=self.fn.qn, old=None, delta=None, local=False))
-                        y = self.assign(s.target, nv, y, s, how='aug', old=old, delta=(v, type(s.op).__name__))
+                        out.extend((y2, None) for y2 in self.assign_multi(s.target, nv, y, s, how='aug', old=old, delta=(v, type(s.op).__name__)))
+                        continue
                     out.append((y, None))
             return out
         if isinstance(s, ast.Delete):
@@ -1547,9 +1555,36 @@ class SymEx:
                 if not silent:
                     x = x.ev(Ev('write', loc=('sub', base, k), value=v, how=how, site=self.site(node), fn=self.fn.qn, old=old, delta=delta))
                 return x
-        if isinstance(t, ast.Attribute) and not self.suppress and not silent:
+        if isinstance(t, ast.Attribute) and not self.suppress and not silent and not getattr(self, '_no_setter', False):
+            res = self._setter_results(t, v, st, node)
+            if res is not None and len(res) == 1 and res[0][0].exc is None:
+                return res[0][0]
+        (x, loc), = self.loc(t, st)[:1]
+        x = x.copy()
+        if old is None:
+            old = x.heap.get(loc, loc)
+        x.heap[loc] = v
+        # a store through one spelling of a location invalidates nothing else (object-insensitive model, see DESIGN 7)
+        if not silent:
+            x = x.ev(Ev('write', loc=loc, value=v, how=how, site=self.site(node), fn=self.fn.qn, old=old, delta=delta))
+        return x
+
+    def assign_multi(self, t, v, st, node, how='assign', old=None, delta=None):
+        """assign() where the statement may fork: a property setter that validates what it is given ends some paths by raising"""
+        if isinstance(t, ast.Attribute) and not self.suppress:
+            res = self._setter_results(t, v, st, node)
+            if res:
+                return [x_ for x_, _ in res]
+        self._no_setter = True
+        try:
+            return [self.assign(t, v, st, node, how=how, old=old, delta=delta)]
+        finally:
+            self._no_setter = False
+
+    def _setter_results(self, t, v, st, node):
+        if True:
             # obj.name = v where the class of obj routes the assignment through a property setter: the setter is what runs (it may keep the value somewhere
-            # else, drop a kept figure, validate) - followed when it is one setter and it neither forks nor refuses
+            # else, drop a kept figure, validate) - followed when it is one setter
             setter = None
             if isinstance(t.value, ast.Name) and t.value.id == 'self' and self.fn.cls is not None:
                 k_ = self.dyn.get(len(self.frames)) or self.fn.cls
@@ -1569,20 +1604,10 @@ class SymEx:
                     ps_ = [p_ for p_ in setter.pos_params if p_ not in ('self',)]
                     if len(ps_) == 1:
                         try:
-                            res = self.inline(setter, {ps_[0]: v}, r0[0][1], r0[0][0], node)
+                            return self.inline(setter, {ps_[0]: v}, r0[0][1], r0[0][0], node)
                         except Undecided:
-                            res = []
-                        if len(res) == 1 and res[0][0].exc is None:
-                            return res[0][0]
-        (x, loc), = self.loc(t, st)[:1]
-        x = x.copy()
-        if old is None:
-            old = x.heap.get(loc, loc)
-        x.heap[loc] = v
-        # a store through one spelling of a location invalidates nothing else (object-insensitive model, see DESIGN 7)
-        if not silent:
-            x = x.ev(Ev('write', loc=loc, value=v, how=how, site=self.site(node), fn=self.fn.qn, old=old, delta=delta))
-        return x
+                            return None
+        return None
 
     # ------------------------------------------------------------------ expressions
     def seq(self, exprs, st):
@@ -2146,6 +2171,12 @@ class SymEx:
                 # reading it off self finds the class-level value of the class self is an instance of
                 c_ = self.dyn.get(len(self.frames)) or self.fn.cls
                 cc = self.M.class_constant(c_, e.attr) if c_ is not None else None
+                if cc is not None and isinstance(cc[1], ast.Constant) and (cc[1].value is None or isinstance(cc[1].value, (bool, int, float, str))):
+                    # `scale = None` in the class body, never assigned on an instance of this class or of a subclass: the instance reads the class's literal
+                    r_ = self.ev(cc[1], State())
+                    if len(r_) == 1:
+                        out.append((x, r_[0][1]))
+                        continue
                 if cc is not None and not isinstance(cc[1], (ast.Constant, ast.List, ast.Dict, ast.Set, ast.ListComp, ast.DictComp)):
                     self.frames.append(self.M.module_func(cc[0].mod))
                     try:
@@ -3337,7 +3368,8 @@ def _canon_ext_call(name, args, kws):
         tol = None
         if name == 'ISCLOSE' and set(k) <= {'atol', 'rtol'}:
             tol = k.get('atol', dflt)
-        elif name == 'MISCLOSE' and k.get('rel_tol') == ZERO and set(k) <= {'abs_tol', 'rel_tol'}:
+        elif name == 'MISCLOSE' and set(k) <= {'abs_tol', 'rel_tol'} and ('rel_tol' not in k or (k['rel_tol'][0] == 'num' and 0 <= k['rel_tol'][1] < 1)):
+            # |x| <= max(rel_tol * |x|, abs_tol): for rel_tol < 1 (default 1e-09) the relative part admits x == 0 only, so the test is |x| <= abs_tol (default 0.0)
             tol = k.get('abs_tol', ZERO)
         if tol is not None:
             return 'ISCLOSE', list(args), (() if tol == dflt else (('atol', tol),))
@@ -3745,6 +3777,8 @@ class Valuation:
                     return Fraction(round(x))
                 if name == 'ABS' and len(vs) == 1:
                     return abs(x)
+                if name == 'FLOORDIV' and len(vs) == 2 and vs[1] != 0:
+                    return Fraction(math.floor(vs[0] / vs[1]))
                 if name == 'MAX':
                     return max(vs)
                 if name == 'MIN':
